@@ -382,6 +382,37 @@ func TestMetadata(t *testing.T) {
 	}
 }
 
+func TestEquivalentSpellings(t *testing.T) {
+	r := rng()
+	for i := 0; i < N; i++ {
+		n := int(r.Int63() - r.Int63())
+		if strconv.Itoa(n) != fmt.Sprintf("%d", n) || strconv.FormatInt(int64(n), 10) != fmt.Sprintf("%d", n) {
+			t.Fatalf("Itoa/FormatInt(%d) differ from Sprintf(%%d)", n)
+		}
+		s, sep := randString(r, 10), randString(r, 2)
+		if sep == "" {
+			continue
+		}
+		before, after, found := strings.Cut(s, sep)
+		p := strings.SplitN(s, sep, 2)
+		if found != strings.Contains(s, sep) || before != p[0] || (found && after != p[1]) || (!found && after != "") {
+			t.Fatalf("Cut(%q,%q) disagrees with SplitN", s, sep)
+		}
+		if (strings.Index(s, sep) >= 0) != strings.Contains(s, sep) {
+			t.Fatalf("Index/Contains(%q,%q)", s, sep)
+		}
+		content := []byte(randString(r, 9))
+		k := r.Intn(6)
+		b1, b2 := make([]byte, k), make([]byte, k)
+		r1, r2 := bytes.NewReader(content), bytes.NewReader(content)
+		n1, e1 := io.ReadFull(r1, b1)
+		n2, e2 := io.ReadAtLeast(r2, b2, k)
+		if n1 != n2 || e1 != e2 || !bytes.Equal(b1, b2) || r1.Len() != r2.Len() {
+			t.Fatalf("ReadFull and ReadAtLeast(len) differ on %d of %d bytes", k, len(content))
+		}
+	}
+}
+
 func TestMisc(t *testing.T) {
 	r := rng()
 	for i := 0; i < 5000; i++ {
